@@ -62,6 +62,22 @@ def run(ctx: Ctx) -> None:
             ch = attr_chain(t)
             if ch and ch[0] == "self" and len(ch) >= 3 and not (ch[1] == "state" and ch[2] == "location"):
                 ctx.ob("R12.1", f"parser:CxxParser.{fname}|nested store {'.'.join(ch)}", False, msg=f"`{short(st)}` mutates an object reachable from the parser", node=st, mod=mod)
+    # containers kept on the parser: created in the constructor, filled while parsing (`self._cache[key] = decl`,
+    # `self._seen.add(x)`): what one declaration put there is what the next one finds
+    _MUT = {"append", "add", "update", "setdefault", "pop", "clear", "extend", "insert", "remove", "popitem", "discard", "appendleft", "extendleft"}
+    for fname, fn in pm.methods.items():
+        if fname in ("__init__", "__new__"):
+            continue
+        for x in walk_local(fn):
+            tgt = None
+            if isinstance(x, ast.Subscript) and isinstance(x.ctx, (ast.Store, ast.Del)):
+                tgt = x.value
+            elif isinstance(x, ast.Call) and isinstance(x.func, ast.Attribute) and x.func.attr in _MUT:
+                tgt = x.func.value
+            ch = attr_chain(tgt) if tgt is not None else None
+            if ch and len(ch) == 2 and ch[0] == "self" and ch[1] not in ("lex",):
+                ctx.ob("R12.1", f"parser:CxxParser.{fname}|container self.{ch[1]} filled while parsing", False,
+                       msg=f"`{short(x, 60)}` fills a container that lives on the parser: what one declaration leaves there is found by every later one (a cached object is then shared between declarations that must be independent)", node=x, mod=mod)
     # current_namespace writers
     # (the push function and the other block openers may set it as well, from the namespace block being pushed:
     # `self.current_namespace = <state>.namespace`, which the kind analysis restricts to namespace blocks)
